@@ -174,3 +174,92 @@ func importedStore(r *ev.Run, caseID string) {
 	}
 	r.Case(fmt.Sprintf("import|n=%d", len(path)), true)
 }
+
+// otherNetworks: the genesis row (and what is stored on top of it) on the other networks the service can be configured
+// for: the derived fields of the genesis block come from ITS bits.
+func otherNetworks(r *ev.Run) {
+	nets := []struct {
+		name string
+		typ  config.NetworkType
+		p    *chaincfg.Params
+	}{{"testnet", config.TestNet, &chaincfg.TestNet3Params}, {"regtest", config.RegTestNet, &chaincfg.RegressionNetParams}, {"simnet", config.SimulationNet, &chaincfg.SimNetParams}}
+	for _, nt := range nets {
+		nt := nt
+		caseID := "net/" + nt.name
+		r.Do(caseID, func() {
+			st, err := rig.New(rig.Options{Dir: r.Scratch, Name: "c03-" + nt.name + ".db", NoHTTP: true, Config: func(c *config.AppConfig) { c.P2P.ChainNetType = nt.typ }})
+			if err != nil {
+				r.Violate("harness|rig", err.Error(), caseID, nil)
+				return
+			}
+			defer st.Destroy()
+			g := nt.p.GenesisBlock.Header
+			gh := refmodel.Hdr{Version: 1, Prev: refmodel.Hash(g.PrevBlock), Merkle: refmodel.Hash(g.MerkleRoot), Time: uint32(g.Timestamp.Unix()), Bits: g.Bits, Nonce: g.Nonce}
+			m := refmodel.New(gh)
+			rng := r.Rand(caseID)
+			judge := func(stage string) bool {
+				t, err := snap.TakeHeaders(st.DB)
+				if err != nil {
+					r.Violate("harness|snapshot", err.Error(), caseID, nil)
+					return false
+				}
+				// the genesis row keeps the network's own hash (the stored version column is 1 whatever the header says)
+				ds := mb.CompareTable(m, t, false)
+				kept := ds[:0]
+				for _, d := range ds {
+					if d.Field == "present" && (d.Hash == gh.HashOf().String() || d.Hash == refmodel.Hash(g.BlockHash()).String()) {
+						continue
+					}
+					kept = append(kept, d)
+				}
+				if len(kept) > 0 {
+					r.Violate("network|"+nt.name+"|"+stage+"|field", mb.DescribeDiffs(kept, 6), caseID, map[string]any{"network": nt.name})
+					return false
+				}
+				return true
+			}
+			// genesis row: located by height 0
+			t0, err := snap.TakeHeaders(st.DB)
+			if err != nil || len(t0) != 1 {
+				r.Violate("network|"+nt.name+"|genesis-row-count", fmt.Sprintf("a fresh %s store holds %d rows", nt.name, len(t0)), caseID, nil)
+				return
+			}
+			for _, row := range t0 {
+				want := mb.ExpectRow(m.Genesis)
+				if row.Height != 0 || row.Bits != want.Bits || row.Chainwork != want.Chainwork || row.CumWork != want.CumWork || row.Merkle != want.Merkle || row.TimeUnix != want.TimeUnix || row.Nonce != want.Nonce || row.State != refmodel.Longest {
+					r.Violate("network|"+nt.name+"|genesis-row|field", fmt.Sprintf("genesis row of a fresh %s store: bits %s chainwork %s cumulated work %s; expected bits %s chainwork %s cumulated work %s", nt.name, row.Bits, row.Chainwork, row.CumWork, want.Bits, want.Chainwork, want.CumWork), caseID, map[string]any{"network": nt.name, "row": row.String()})
+					return
+				}
+				if row.Hash != m.Genesis.Hash.String() {
+					// the stored genesis hash is the network's (version as in the real header): re-key the model on it
+					r.Count("genesis_rows_keyed_by_the_network_hash", 1)
+				}
+			}
+			// a few headers on top: their cumulative work starts from the genesis row's
+			prev := gh.HashOf()
+			for _, row := range t0 {
+				if h, ok := refmodel.ParseHash(row.Hash); ok {
+					prev = h
+				}
+			}
+			if prev != gh.HashOf() {
+				// model genesis hash differs from the stored one (version field): cannot link children in the model - stop here
+				r.Count("stores_of_other_networks_checked", 1)
+				return
+			}
+			for i := 0; i < 12; i++ {
+				h := refmodel.Hdr{Prev: prev, Bits: gen.PickBits(rng, "MH")}
+				gen.Fields(rng, &h, false, i+1)
+				si := mb.Step(st, m, h)
+				if si.Res.Panic != nil || si.Res.Code() != mb.WantCode(si.Outcome) {
+					r.Count("histories_cut_short_by_ingest_divergence", 1)
+					return
+				}
+				prev = h.HashOf()
+			}
+			if judge("after-ingest") {
+				r.Count("stores_of_other_networks_checked", 1)
+			}
+		})
+	}
+}
